@@ -50,6 +50,77 @@ CLAIMED = {
              'PostgreSQL.',
         technique='Lean 4 proofs over definitions regenerated from source + exhaustive/level-2 differential with real compiler and toy_eval_model',
     ),
+
+    'C04': dict(
+        category='proof',
+        text='Lean invariant proofs over a model of FlatSchema\'s six indexes: Inv (names/refs_to/types agree with object '
+             'data) for every guarded raw-op history, failed op ⇒ unchanged state, NoDangling ∧ Inv for every command '
+             'history, dropped objects reachable through no index; necessity witnesses for each guard conjunct replayed '
+             'on the real FlatSchema. Tie: step-by-step diff of ALL six real indexes against the model on random / '
+             'exhaustive raw histories over real schema classes; real DDL scripts through the bridge with an API-level '
+             'audit after every statement, old-version fingerprints, and trace validation (logged raw ops of the real '
+             'engine replayed through the Lean model).',
+        design_ref='§4 C04, §7',
+        note='Model hand-written; delta.py command engine not modelled beyond the guarded layer (what real command trees '
+             'do is checked per run by trace validation). delist excluded from store_inv (engine never calls it).',
+        technique='Lean 4 invariant proofs + differential and trace validation against the real FlatSchema / DDL engine',
+    ),
+    'C07': dict(
+        category='proof',
+        text='Lean theorems: decision table (C07_decision), formula builder = decision for all five access kinds '
+             '(C07_filter), no-bypass for the rewrite plan on every well-formed type DAG (C07_plan_nobypass), termination, '
+             'exact bag equality on forests (C07_plan_partial) with decide-checked counterexamples for the two ways the '
+             'real plan is inexact on DAGs. Tie: real get_rewrite_filter truth tables; real type_rewrites maps abstracted '
+             'and compared per key; real compiled filter IR evaluated on valuations; real plan evaluated on generated '
+             'databases; and an AUDIT of every emitted SQL tree (raw reads of protected tables only inside their filter '
+             'CTE) over ~230 queries × 50 access-path templates per quick run.',
+        design_ref='§4 C07, §7',
+        note='"No generated SQL reads the storage without the condition" is a theorem about plans and a per-query audit for '
+             'real SQL (not a proof about relctx/pathctx). Policy conditions are opaque predicates. Four genuine defects '
+             'are known findings (incl. a policy bypass through links to union types).',
+        technique='Lean 4 proofs over policy/plan model + differential on real compiler IR + SQL-tree audit',
+    ),
+    'C15': dict(
+        category='proof',
+        text='Lean invariant (ids unique, accounting exact, capacity bound) proved for every transition of the pool '
+             'state machine, every environment parameter (quotas, clock predicates, block order) and every event list. '
+             'Tie: the REAL Pool runs on a deterministic event loop (one ready handle per step chosen by the PRNG, virtual '
+             'clock, connect/disconnect futures completed or failed by the harness); after every step the property is '
+             'evaluated on the real object against a ghost live set, and the complete integer state is diffed against '
+             'the Lean model transition by transition.',
+        design_ref='§4 C15, §7',
+        note='Float/clock-derived values are environment parameters of the model (read off the real pool each step). '
+             'prune_all_connections modelled as written. pool2.py (Rust pool) out of scope.',
+        technique='Lean 4 invariant proof over pool state machine + step-level differential on the real Pool under a deterministic scheduler',
+    ),
+    'C18': dict(
+        category='proof',
+        text='Lexer-inverse theorems at full strength for the fixed code: every string without NUL / every byte string / '
+             'every expressible identifier printed by quote_literal, dollar_quote_literal, visit_Constant (all five '
+             'forms), visit_BytesConstant, quote_ident is read back by the model of the Rust tokenizer as one token with '
+             'the original value followed by any rest; same for SQL literal/identifier/bytea against a PostgreSQL lexical '
+             'spec. Tie: 12 Python entry points + 5 generator paths vs Model/Quote; Model/Lex vs the REAL Rust tokenizer '
+             '(rebuilt from /repo each run) on ~185k texts; real-only oracle quote→tokenize→single token; Unicode sweep of '
+             'the Python/Rust character-class compatibility hypothesis.',
+        design_ref='§4 C18, §7',
+        note='PgLex is a specification transcribed from the PostgreSQL documentation (no server). Unicode tables are '
+             'parameters; their compatibility (Compat P U) is swept on the running interpreters. Dollar-loop fuel '
+             'sufficiency not proved (would print !fuel). quote_e_literal (dead code) is a known finding.',
+        technique='Lean 4 lexer-inverse proofs + differential against real quoting functions and the real Rust tokenizer',
+    ),
+    'C19': dict(
+        category='proof',
+        text='Lean theorems: lookup precedence, op-sequence semantics as a left fold (SET/RESET/ADD/REM, uniqueness), '
+             'rejection leaves all layers unchanged, JSON round trip on every reachable admissible state, Duration '
+             'parse∘print = id for ALL Int microseconds (negatives included), memory round trip for all Nat. Tie: real '
+             'Operation.apply / lookup / to_json / from_json / to_edgeql / Duration / ConfigMemory on random and '
+             'exhaustive op sequences step by step; level 2: statements printed by the real to_edgeql are parsed, '
+             'compiled and statically evaluated by the real compiler and re-applied (same effective configuration).',
+        design_ref='§4 C19, §7',
+        note='C19_edgeql is a test on real code, not a theorem. Six families of accepted-but-unserialisable values are '
+             'known findings at the config-ops layer (reachability notes in notes/C19.md).',
+        technique='Lean 4 proofs over config/duration/memory models + step-level differential on real config ops + real-compiler replay of DESCRIBE text',
+    ),
 }
 
 NOT_YET = 'check not built yet in this round (planned in DESIGN.md §4); not claimed until its theorem and tie exist'
